@@ -180,12 +180,16 @@ PROPS = {
     },
     "C07": {
         "sub": "fw",
+        "divergence_is_counterexample": True,
+        "divergence_parts": ["lim", "log2", "log3"],
         "n": {"quick": 4000, "thorough": 300000},
         "coq_sample": {"quick": 20, "thorough": 200},
         "rule": FW_RULE % "a limit was decremented (scenario class: 1-3 machines whose SendPadding/BlockOutgoing/UpdateTimer actions carry constant or sampled limits 0..5; calls of 1-2 events interleaving completions for the right machine, other machines and unknown ids with self-transitions, state changes and CounterZero round trips)",
     },
     "C08": {
         "sub": "fw",
+        "divergence_is_counterexample": True,
+        "divergence_parts": ["ca", "cb", "za", "zb", "log7"],
         "n": {"quick": 4000, "thorough": 300000},
         "coq_sample": {"quick": 20, "thorough": 200},
         "rule": FW_RULE % "a CounterZero was raised (scenario class: 1-3 machines sharing events, counters on 75%% of the states with all 3 operations x {unit, sampled, copy}, values driven to 0, 1 and around u64::MAX by huge constant distributions and saturating increments; CounterZero chains that update counters again)",
